@@ -87,6 +87,12 @@ def make_loop(shape, path, via_apply=False):
              "(define r1 (mk 1))", "(define r2 (mk 2))", "(define r3 (mk 4))",
              "((cadr r1) (car r2))", "((cadr r2) (car r3))", "((cadr r3) (car r1))"]
         return d, "((car r1) {N} 0)"
+    if shape == "foreign-internal":
+        # a loop driven by returned thunks: each round's body defines an internal variable bound to a closure made elsewhere and returns a closure of its own frame
+        d = ["(define (adder k) (lambda (x) (+ x k)))",
+             "(define (step n acc) (define add1 (adder 1)) (if (= (probe n) 0) acc (lambda () %s)))" % W(call("step", "(- n 1)", "(add1 acc)")),
+             "(define (drive t) (if (procedure? t) (drive (t)) t))"]
+        return d, "(drive (step {N} 0))"
     if shape == "drain":
         # the iteration is driven by an effectful test in a cond => clause that is not the last one: one item is taken per round
         d = ["(define q 0)", "(define (take!) (if (> q 0) (begin (set! q (- q 1)) (+ q 1)) #f))",
@@ -104,7 +110,7 @@ def expected(shape, N):
     return N
 
 
-SHAPES = ["self", "mutual2", "mutual3", "higher-order", "variadic", "closure-returned", "internal-var", "internal-proc", "closure-pair", "closure-ring", "drain"]
+SHAPES = ["self", "mutual2", "mutual3", "higher-order", "variadic", "closure-returned", "internal-var", "internal-proc", "closure-pair", "closure-ring", "drain", "foreign-internal"]
 
 
 def judge(ctx, case, rec, leg):
